@@ -2,6 +2,7 @@ package cl
 
 import (
 	"fmt"
+	"sync"
 	"testing"
 	"time"
 
@@ -23,6 +24,9 @@ type c33Case struct {
 	KeepAliveS int     `json:"keepalive_s"`
 	Retries    uint    `json:"retries"`
 	PingDrops  []int   `json:"ping_drops"` // for the 1st, 2nd, ... keep-alive ping: how many of its transmissions the gateway drops
+	// for the 1st, 2nd, ... ping: how late the gateway's PINGRESP is (below RetryDelay, so that no
+	// retransmission fills the gap)
+	PingDelayMs []int `json:"ping_delay_ms,omitempty"`
 	Ops        []c33Op `json:"ops"`
 }
 
@@ -30,6 +34,11 @@ func genC33(t *rapid.T) c33Case {
 	c := c33Case{KeepAliveS: rapid.SampledFrom([]int{2, 3, 5, 30}).Draw(t, "K"), Retries: uint(rapid.IntRange(1, 3).Draw(t, "retries"))}
 	for i := 0; i < 8; i++ {
 		c.PingDrops = append(c.PingDrops, rapid.SampledFrom([]int{0, 0, 0, 1, int(c.Retries)}).Draw(t, "drops"))
+	}
+	if rapid.Bool().Draw(t, "slow_gateway") {
+		for i := 0; i < 8; i++ {
+			c.PingDelayMs = append(c.PingDelayMs, rapid.SampledFrom([]int{0, 0, 300, 600, 900, 999}).Draw(t, "delay_ms"))
+		}
 	}
 	K := int64(c.KeepAliveS) * 1e9
 	adv := func() c33Op {
@@ -91,7 +100,9 @@ func runC33(c c33Case) (r vf.Result) {
 	defer s.Shutdown()
 	g := clsim.NewGateway()
 	pingNo, dropsLeft := 0, 0
-	dropped := false
+	dropped, delayed := false, false
+	var late sync.WaitGroup
+	defer late.Wait() // before the bubble's root returns
 	s.Respond = func(p snref.Pkt) []snref.Pkt {
 		if p.Type == snref.PINGREQ && len(p.ClientID) == 0 {
 			if dropsLeft == 0 { // a new ping
@@ -105,6 +116,19 @@ func runC33(c c33Case) (r vf.Result) {
 			dropsLeft--
 			if dropsLeft > 0 {
 				dropped = true
+				return nil
+			}
+			if i := pingNo - 1; i < len(c.PingDelayMs) && c.PingDelayMs[i] > 0 {
+				d, ans := time.Duration(c.PingDelayMs[i])*time.Millisecond, g.Answer(p)
+				delayed = true
+				late.Add(1)
+				go func() {
+					defer late.Done()
+					time.Sleep(d)
+					for _, a := range ans {
+						s.GatewaySend(a, true)
+					}
+				}()
 				return nil
 			}
 			return g.Answer(p)
@@ -138,7 +162,10 @@ func runC33(c c33Case) (r vf.Result) {
 			return
 		}
 	}
-	r.NonTrivial = near || dropped
+	r.NonTrivial = near || dropped || delayed
+	if delayed {
+		r.Label("pingresp-late")
+	}
 	if dropped {
 		r.Label("ping-transmissions-dropped")
 	}
@@ -157,23 +184,33 @@ func checkKeepalive(c c33Case, s *clsim.Sim, r *vf.Result) {
 	st := disconnected
 	K := int64(c.KeepAliveS) * 1e9
 	eps := int64(5e6)
-	var since, lastPing int64 // start of the current active period, last PINGREQ in it
+	var since int64   // start of the current active period
+	var pings []int64 // PINGREQ transmissions in it
 	sleepPending := false
 	end := s.Now()
+	// "at least once per KeepAlive period": the periods are counted from the instant the client became
+	// active; each complete period (T-K, T] must contain a PINGREQ transmission (a tick that finds a
+	// ping of the application in flight joins it, so the datagram may be earlier than the tick, and
+	// it is at most 5 ms late).
 	gap := func(now int64, what string) {
-		ref := since
-		if lastPing > since {
-			ref = lastPing
-		}
-		if now-ref > K+eps {
-			r.Fail("keepalive-gap", "client active since %.3f s, last keep-alive PINGREQ at %.3f s, none until %s at %.3f s (KeepAlive %d s)\n%s", float64(since)/1e9, float64(lastPing)/1e9, what, float64(now)/1e9, c.KeepAliveS, s.Dump(40))
+		for T := since + K; T+eps <= now; T += K {
+			ok := false
+			for _, p := range pings {
+				if p > T-K && p <= T+eps {
+					ok = true
+				}
+			}
+			if !ok {
+				r.Fail("keepalive-gap", "client active since %.3f s: no PINGREQ in the keep-alive period (%.3f s, %.3f s] (KeepAlive %d s; PINGREQs of this active period at %v ns; judged up to %s at %.3f s)\n%s", float64(since)/1e9, float64(T-K)/1e9, float64(T)/1e9, c.KeepAliveS, pings, what, float64(now)/1e9, s.Dump(40))
+				return
+			}
 		}
 	}
 	for _, e := range s.Events {
 		switch {
 		case e.Kind == "G>C" && e.SN != nil && e.SN.Type == snref.CONNACK && e.SN.RC == 0:
 			if st != active {
-				st, since, lastPing = active, e.Ns, 0
+				st, since, pings = active, e.Ns, nil
 			}
 		case e.Kind == "C>G" && e.SN != nil && e.SN.Type == snref.DISCONNECT:
 			if st == active {
@@ -198,8 +235,7 @@ func checkKeepalive(c c33Case, s *clsim.Sim, r *vf.Result) {
 			}
 			switch st {
 			case active:
-				gap(e.Ns, "the next PINGREQ")
-				lastPing = e.Ns
+				pings = append(pings, e.Ns)
 			case asleep:
 				if e.Ns > since { // strictly after the client fell asleep
 					r.Fail("keepalive-ping-while-asleep", "keep-alive PINGREQ (no client ID) sent at %.3f s although the client has been asleep since %.3f s\n%s", float64(e.Ns)/1e9, float64(since)/1e9, s.Dump(40))
@@ -223,8 +259,8 @@ func checkKeepalive(c c33Case, s *clsim.Sim, r *vf.Result) {
 func TestC33(t *testing.T) {
 	vf.Check(t, vf.Prop[c33Case]{
 		ID: "C33", Name: "client-keepalive", Bubble: true, DeadlockIsViolation: true,
-		Rule: "real client with KeepAlive 2/3/5/30 s (RetryDelay 1 s, RetryCount 1-3) against a scripted gateway that answers everything but drops 0..RetryCount transmissions of selected keep-alive pings; 2-10 API calls (Sleep of 1-7 s, Disconnect, Publish QoS 0-2, Subscribe, Register, Ping, reconnect) separated by time advances drawn relative to the keep-alive period (K, K/2, K/4, 2K, 3K, 1 s; exactly, +-1 ns, +-1 ms, +0.5 s). Non-trivial = an API call starts within 1 s after a keep-alive PINGREQ, or a ping transmission is dropped; distinct by case.",
-		Assumptions: []string{"keep-alive PINGREQs carry no client ID, the wake-up PINGREQ carries it; Client.Ping() is called only while the client is active and has returned before the next call starts, so a PINGREQ without client ID seen while asleep or disconnected is a keep-alive ping (or a retransmission of one)", "RetryDelay (1 s) is below every KeepAlive used, so while the client is active two consecutive PINGREQ datagrams are never more than KeepAlive apart (+5 ms)", "the awake state (after Sleep returned, before reconnecting) is not judged"},
+		Rule: "real client with KeepAlive 2/3/5/30 s (RetryDelay 1 s, RetryCount 1-3) against a scripted gateway that answers everything but drops 0..RetryCount transmissions of selected keep-alive pings and, in half of the cases, answers selected pings 300-999 ms late (below RetryDelay); 2-10 API calls (Sleep of 1-7 s, Disconnect, Publish QoS 0-2, Subscribe, Register, Ping, reconnect) separated by time advances drawn relative to the keep-alive period (K, K/2, K/4, 2K, 3K, 1 s; exactly, +-1 ns, +-1 ms, +0.5 s). Non-trivial = an API call starts within 1 s after a keep-alive PINGREQ, or a ping transmission is dropped or answered late; distinct by case.",
+		Assumptions: []string{"keep-alive PINGREQs carry no client ID, the wake-up PINGREQ carries it; Client.Ping() is called only while the client is active and has returned before the next call starts, so a PINGREQ without client ID seen while asleep or disconnected is a keep-alive ping (or a retransmission of one)", "\"once per KeepAlive period\" is read as: every complete period of KeepAlive length, counted from the instant the client became active, contains a PINGREQ datagram (first transmission or retransmission, keep-alive or Ping()), with 5 ms of tolerance at the end; a sliding window is not demanded (a tick that joins an application ping sent just before it sends nothing itself)", "the awake state (after Sleep returned, before reconnecting) is not judged"},
 		Gen:         genC33,
 		Run:         runC33,
 	})
